@@ -58,6 +58,27 @@ add("C15", "Locate.tla: TLC checks that the declarative Resolve is a partial fun
     "real lookups/replacements validated by TLC (LocateTrace.tla)", "DESIGN.md 5.6, 8 C15")
 
 
+SYNC_NOTE = ("Trusted: TLC, the project builder / ast-based observer in vf/sync_check.py (never doctrans), two fixed well-behaved interface "
+             "versions v1/v2. Bounds: one file per kind, <= 4 surrounding statements, histories of <= 5 steps, one fault per invocation.")
+SYNC_TECH = "TLA+ spec (Sync.tla: Begin/Decide/Tmp/Rename/Open/Write/End/Fault/EditTruth) model-checked with TLC for the intended design; real sync histories recorded and validated clause by clause by TLC (SyncTrace.tla)"
+add("C09", "TLC proves Agreement at End for every pre-state combination of Sync.tla (3.6M states). Real histories: truth kind x kinds given (2 or 3) x "
+    "top-level / method target x every target pre-state (missing, empty, definition absent, stale, agreeing canonical / hand-written, no trailing "
+    "newline, class missing), via ground_truth and via `python -m doctrans sync`; after the run every target is read with ast and must carry the "
+    "truth's interface version.", SYNC_NOTE, SYNC_TECH, "DESIGN.md 5.7, 8 C09")
+add("C10", "TLC proves Idempotent (action property), TruthUntouched, ReportTruthful, Untouched on Sync.tla. Real histories of 2-5 steps (sync, sync; "
+    "sync, sync, edit truth, sync, sync; CLI) are validated: bytes of every file between runs, returned report and printed lines.",
+    SYNC_NOTE, SYNC_TECH, "DESIGN.md 5.7, 8 C10")
+add("C11", "TLC proves FrameKept on Sync.tla; real histories over targets surrounded by imports, helper functions sharing parameter names, classes "
+    "with same-named methods, sibling class members, with and without trailing newline: every other statement must keep its ast.dump and order, "
+    "and the file must parse.", SYNC_NOTE, SYNC_TECH, "DESIGN.md 5.7, 8 C11")
+add("C20", "TLC proves OldOrNew for the write-to-sibling-then-rename design with a Fault action enabled between any two steps (and refutes it for "
+    "open-truncate-then-write); faults are injected into real sync runs at every write (before open, after open, mid-write of the 1st/2nd file) and "
+    "at the 1st-3rd emitter call; every file must afterwards be byte-identical or completely rewritten and parseable. Cli.tla: every invocation "
+    "shape of the three sub-commands (888) is run as a real subprocess; outcome class, exit status and a byte-level directory snapshot are "
+    "validated by TLC (CliTrace.tla).", SYNC_NOTE + " sync_properties / gen fault points are not injected (single write at the end).",
+    SYNC_TECH + "; Cli.tla accept/reject relation + CliTrace.tla", "DESIGN.md 5.7, 5.8, 8 C20")
+
+
 def main():
     props = [json.loads(l)["id"] for l in open(os.path.join(HERE, "properties.jsonl"))]
     m = {
